@@ -182,12 +182,23 @@ class World(object):
                         return ('global', m, rest[0])
                     if rest[0] in m.consts:
                         return ('const', m, m.consts[rest[0]])
-                elif len(rest) == 2 and rest[0] in m.classes:
-                    for st in m.classes[rest[0]].body:
-                        if isinstance(st, ast.ClassDef) and st.name == rest[1]:
-                            return ('class', m, st)
-                        if isinstance(st, ast.FunctionDef) and st.name == rest[1]:
-                            return ('method', m, m.classes[rest[0]], st)
+                elif rest[0] in m.classes:
+                    c = m.classes[rest[0]]
+                    for depth, nm in enumerate(rest[1:]):
+                        last = depth == len(rest) - 2
+                        found = None
+                        for st in c.body:
+                            if isinstance(st, ast.ClassDef) and st.name == nm:
+                                found = ('class', st)
+                            elif isinstance(st, ast.FunctionDef) and st.name == nm:
+                                found = ('method', st)
+                        if found is None:
+                            return None
+                        if last:
+                            return ('class', m, found[1]) if found[0] == 'class' else ('method', m, c, found[1])
+                        if found[0] != 'class':
+                            return None
+                        c = found[1]
                 return None
         return None
 
@@ -196,9 +207,12 @@ class World(object):
 
 class AV(object):
     """What an expression may evaluate to."""
-    __slots__ = ('srcs', 'fresh', 'kind', 'funcs', 'elems', 'cls')
+    __slots__ = ('srcs', 'fresh', 'kind', 'funcs', 'elems', 'cls', 'shell')
 
-    def __init__(self, srcs=(), fresh=False, kind=None, funcs=(), elems=None, cls=()):
+    def __init__(self, srcs=(), fresh=False, kind=None, funcs=(), elems=None, cls=(), shell=False):
+        # shell: the container object itself is certainly new (a literal, a copy, **kwargs);
+        # only its elements may alias srcs, so writing *the container* touches no older buffer
+        self.shell = shell
         self.srcs = frozenset(srcs)
         self.fresh = fresh
         self.kind = kind
@@ -227,7 +241,16 @@ def join(*avs):
         if a.isbuf():
             kinds.add(a.kind)
     kind = kinds.pop() if len(kinds) == 1 else ('unk' if kinds else None)
-    return AV(srcs, fresh, kind, funcs, None, cls)
+    bufs = [a for a in avs if a.isbuf()]
+    return AV(srcs, fresh, kind, funcs, None, cls, bool(bufs) and all(a.shell for a in bufs))
+
+
+def meta_join(old, new):
+    if old is None:
+        return AV((), False, new.kind, new.funcs, new.elems, new.cls, new.shell)
+    return AV((), False, new.kind if old.kind == new.kind else 'unk',
+              tuple(old.funcs) + tuple(f for f in new.funcs if f not in old.funcs),
+              None, old.cls | new.cls, old.shell and new.shell)
 
 
 def view_of(av, kind='unk'):
@@ -328,6 +351,22 @@ def defaults_of(fn, drop_self=False):
     return d
 
 
+
+def terminates(stmts):
+    """'return' / 'raise' when control cannot fall out of the end of stmts, else None"""
+    if not stmts:
+        return None
+    last = stmts[-1]
+    if isinstance(last, ast.Return):
+        return 'return'
+    if isinstance(last, ast.Raise):
+        return 'raise'
+    if isinstance(last, ast.If):
+        a, b = terminates(last.body), terminates(last.orelse)
+        if a and b:
+            return 'raise' if a == b == 'raise' else 'return'
+    return None
+
 # ------------------------------------------------------------ the translator
 
 class Scope(object):
@@ -371,6 +410,10 @@ class FuncTranslator(object):
         self.calls = []                  # (callee qual) for the call graph
         self.selffields = set()
         self.params = []
+        self.ret_cls = set()
+        self.escaped = set()
+        self.field_assign = {}
+        self.scalar_fields = set()
 
     # -- emission ---------------------------------------------------------
     def emit(self, c):
@@ -399,11 +442,7 @@ class FuncTranslator(object):
         for d in reversed(cmds[:-1]):
             c = ('if', d, c)
         self.emit(c)
-        old = self.meta.get(target)
-        m = AV((), False, av.kind, av.funcs, av.elems, av.cls)
-        self.meta[target] = m if old is None else AV((), False, av.kind if old.kind == av.kind else 'unk',
-                                                     tuple(old.funcs) + tuple(f for f in av.funcs if f not in old.funcs),
-                                                     None, old.cls | av.cls)
+        self.meta[target] = meta_join(self.meta.get(target), av)
 
     def as_var(self, av, hint='t'):
         """a variable holding av (None when av holds no buffer)"""
@@ -416,6 +455,8 @@ class FuncTranslator(object):
         return t
 
     def emit_write(self, av):
+        if av.shell:
+            return
         cmds = [('write', s) for s in sorted(av.srcs)]
         if not cmds:
             return
@@ -432,6 +473,8 @@ class FuncTranslator(object):
             self.emit(('storeg', t))
 
     def emit_ret(self, av):
+        if self.method and self.params and (set(av.srcs) & self.escaped):
+            self.emit(('ret', self.params[0]))
         for s in sorted(av.srcs):
             self.emit(('ret', s))
         if av.fresh:
@@ -445,11 +488,11 @@ class FuncTranslator(object):
             if name in s.weak:
                 v = s.weak[name]
                 m = self.meta.get(v, NB)
-                return AV([v], False, m.kind or 'unk', m.funcs, None, m.cls)
+                return AV([v], False, m.kind or 'unk', m.funcs, None, m.cls, m.shell)
             if name in s.cur:
                 v = s.cur[name]
                 m = self.meta.get(v, NB)
-                return AV([v], False, m.kind or 'unk', m.funcs, m.elems, m.cls)
+                return AV([v], False, m.kind or 'unk', m.funcs, m.elems, m.cls, m.shell)
             return s.nb[name]
         return self.load_global_name(name, node)
 
@@ -516,6 +559,8 @@ class FuncTranslator(object):
                 return self.load_global_name(r[2], node, r[1])
             if r[0] == 'const':
                 return self.const_value(r[1], r[2])
+        if dotted.startswith('abel.lib.'):
+            return AV(funcs=[('ext', dotted)])         # compiled extension
         if dotted.startswith('abel.') or dotted == 'abel':
             if dotted in ('abel._deprecate', 'abel._deprecated'):
                 return AV(funcs=[('ext', 'warnings.warn')]) if dotted.endswith('te') else NB
@@ -559,9 +604,22 @@ class FuncTranslator(object):
     # -- statements -------------------------------------------------------
     def block(self, stmts, scope):
         self.blocks.append([])
-        for s in stmts:
-            self.stmt(s, scope)
+        self.stmts(stmts, scope)
         return self.blocks.pop()
+
+    def stmts(self, stmts, scope):
+        """a statement list; code after `if c: ...; return/raise` runs only on the other branch"""
+        for i, st in enumerate(stmts):
+            rest = stmts[i + 1:]
+            if isinstance(st, ast.If) and rest:
+                tb, te = terminates(st.body), terminates(st.orelse)
+                if tb and not te:
+                    self.st_If(st, scope, extra_else=rest)
+                    return
+                if te and not tb:
+                    self.st_If(st, scope, extra_body=rest)
+                    return
+            self.stmt(st, scope)
 
     def seq(self, cmds):
         cmds = [c for c in cmds if c != ('skip',)]
@@ -589,10 +647,7 @@ class FuncTranslator(object):
                     blk.append(('assign', nv, ('var', v)))
                     m = self.meta.get(v)
                     if m is not None:
-                        old = self.meta.get(nv)
-                        self.meta[nv] = m if old is None else AV((), False, m.kind if old.kind == m.kind else 'unk',
-                                                                 tuple(old.funcs) + tuple(f for f in m.funcs if f not in old.funcs),
-                                                                 None, old.cls | m.cls)
+                        self.meta[nv] = meta_join(self.meta.get(nv), m)
             merged[name] = nv
         scope.cur = merged
 
@@ -650,6 +705,7 @@ class FuncTranslator(object):
                 self.emit_assign(rs.retvar, av)
             rs.retmeta = av if rs.retmeta is None else join(rs.retmeta, av)
             return
+        self.ret_cls |= set(av.cls)
         self.emit_ret(self.closure_extras(av, scope))
 
     def closure_extras(self, av, scope):
@@ -723,15 +779,21 @@ class FuncTranslator(object):
         name = 'self.' + attr
         root = scope_root(scope)
         self.selffields.add(name)
+        fa = self.field_assign.setdefault(attr, dict(buf=False, nb=False))
+        fa['buf' if av.isbuf() else 'nb'] = True
+        if self.method and av.isbuf() and attr in self.scalar_fields:
+            raise Untranslatable('attribute %s was classified as a number but receives an array' % attr)
         if self.method:
-            # `self` is a parameter: the object is a region that now also holds av
+            # `self` is a parameter (an existing object, seen as one region).  Within this
+            # invocation the attribute is exactly av; the region of self grows by av, and a
+            # value that was stored in self and is returned later is part of self.
             selfv = root.cur.get('self')
-            joined = join(av, AV([selfv], False, 'unk')) if selfv else av
-            self.bind(name, AV(joined.srcs, joined.fresh, av.kind, av.funcs, None, av.cls), root)
+            self.bind(name, av, root)
             if av.isbuf() and selfv:
-                for s in sorted(av.srcs):
-                    self.emit(('if', ('assign', s, ('view', selfv)), ('skip',)))
-                self.emit(('if', self.seq_assign(selfv, av), ('skip',)))
+                self.emit(('if', self.seq_assign(selfv, AV(av.srcs, av.fresh, 'unk')), ('skip',)))
+                self.escaped |= set(av.srcs)
+                if name in root.cur:
+                    self.escaped.add(root.cur[name])
         else:
             if av.isbuf() or av.funcs or av.elems:
                 self.bind(name, av, root)
@@ -764,21 +826,38 @@ class FuncTranslator(object):
         else:
             fail(n, 'unsupported augmented assignment')
 
-    def st_If(self, n, scope):
+    def st_If(self, n, scope, extra_body=(), extra_else=()):
         self.expr(n.test, scope)
         pre_cur, pre_nb = dict(scope.cur), dict(scope.nb)
+        none_in_body = none_in_else = None
+        t = n.test
+        if isinstance(t, ast.Compare) and len(t.ops) == 1 and isinstance(t.left, ast.Name) and \
+                isinstance(t.comparators[0], ast.Constant) and t.comparators[0].value is None and \
+                t.left.id in scope.cur and t.left.id not in scope.weak:
+            if isinstance(t.ops[0], ast.Is):
+                none_in_body = t.left.id
+            elif isinstance(t.ops[0], ast.IsNot):
+                none_in_else = t.left.id
         self.blocks.append([])
-        for s in n.body:
-            self.stmt(s, scope)
+        if none_in_body:
+            scope.cur.pop(none_in_body, None)          # `x is None` holds here: x holds no buffer
+        self.stmts(list(n.body) + list(extra_body), scope)
         b1 = self.blocks.pop()
         cur1, nb1 = scope.cur, scope.nb
         scope.cur, scope.nb = dict(pre_cur), dict(pre_nb)
         self.blocks.append([])
-        for s in n.orelse:
-            self.stmt(s, scope)
+        if none_in_else:
+            scope.cur.pop(none_in_else, None)
+        self.stmts(list(n.orelse) + list(extra_else), scope)
         b2 = self.blocks.pop()
         cur2, nb2 = scope.cur, scope.nb
-        self.merge(scope, pre_cur, [(b1, cur1), (b2, cur2)])
+        # a branch that always raises contributes nothing to the state after the `if`
+        live = [(b, c) for (b, c), t in (((b1, cur1), terminates(list(n.body) + list(extra_body))),
+                                         ((b2, cur2), terminates(list(n.orelse) + list(extra_else)))) if t != 'raise']
+        if len(live) == 1:
+            scope.cur = live[0][1]
+        else:
+            self.merge(scope, pre_cur, [(b1, cur1), (b2, cur2)])
         nb = dict(nb1)
         for k, v in nb2.items():
             nb[k] = v if k not in nb or nb[k] is v else AV((), False, None, tuple(nb[k].funcs) + tuple(f for f in v.funcs if f not in nb[k].funcs), None, nb[k].cls | v.cls)
@@ -805,8 +884,7 @@ class FuncTranslator(object):
         scope.loops.append(loopvars)
         self.blocks.append([])
         bind_target()
-        for s in n.body:
-            self.stmt(s, scope)
+        self.stmts(n.body, scope)
         self.loop_back(scope)
         body = self.blocks.pop()
         scope.loops.pop()
@@ -825,9 +903,7 @@ class FuncTranslator(object):
                 self.emit(('assign', lv, ('var', v)))
                 m = self.meta.get(v)
                 if m is not None:
-                    old = self.meta.get(lv)
-                    self.meta[lv] = m if old is None else AV((), False, m.kind if old.kind == m.kind else 'unk',
-                                                             tuple(old.funcs) + tuple(f for f in m.funcs if f not in old.funcs), None, old.cls | m.cls)
+                    self.meta[lv] = meta_join(self.meta.get(lv), m)
 
     def st_For(self, n, scope):
         it = self.expr(n.iter, scope)
@@ -946,12 +1022,12 @@ class FuncTranslator(object):
     def ex_Tuple(self, n, scope):
         elems = [self.expr(e, scope) for e in n.elts]
         j = join(*elems) if elems else NB
-        return AV(j.srcs, j.fresh, 'cont' if j.isbuf() else None, j.funcs, elems, j.cls)
+        return AV(j.srcs, j.fresh, 'cont' if j.isbuf() else None, j.funcs, elems, j.cls, True)
 
     def ex_List(self, n, scope):
         elems = [self.expr(e, scope) for e in n.elts]
         j = join(*elems) if elems else NB
-        return AV(j.srcs, True, 'cont', j.funcs, elems, j.cls)
+        return AV(j.srcs, True, 'cont', j.funcs, elems, j.cls, True)
 
     ex_Set = ex_List
 
@@ -961,7 +1037,7 @@ class FuncTranslator(object):
             if k is not None:
                 self.expr(k, scope)
         j = join(*vals) if vals else NB
-        return AV(j.srcs, True, 'cont', j.funcs, None, j.cls)
+        return AV(j.srcs, True, 'cont', j.funcs, None, j.cls, True)
 
     def ex_BinOp(self, n, scope):
         a, b = self.expr(n.left, scope), self.expr(n.right, scope)
@@ -970,7 +1046,7 @@ class FuncTranslator(object):
         if a.kind == 'cont' or b.kind == 'cont':
             if isinstance(n.op, (ast.Add, ast.Mult)):      # list/tuple concatenation, repetition
                 j = join(a, b)
-                return AV(j.srcs, True, 'cont', j.funcs, None, j.cls)
+                return AV(j.srcs, True, 'cont', j.funcs, None, j.cls, True)
         if a.isbuf() or b.isbuf():
             return AV((), True, 'arr')
         return NB
@@ -1011,7 +1087,7 @@ class FuncTranslator(object):
         if body:
             self.emit(('loop', self.seq(body)))
         j = join(*vals)
-        return AV(j.srcs, True, 'cont', j.funcs, None, j.cls)
+        return AV(j.srcs, True, 'cont', j.funcs, None, j.cls, True)
 
     def ex_ListComp(self, n, scope):
         return self.comp(n, scope, [n.elt])
@@ -1074,13 +1150,18 @@ class FuncTranslator(object):
         if base.cls:
             ms = []
             for c in base.cls:
-                r = self.w.lookup(c + '.' + attr)
+                probe = FuncTranslator.__new__(FuncTranslator)
+                probe.w = self.w
+                probe.clsq = c
+                r = FuncTranslator.find_member(probe, attr, c)
                 if r is not None and r[0] == 'method':
-                    ms.append(('boundmethod', c + '.' + attr, base))
+                    if any(dotted_name(d) == 'property' for d in r[2].decorator_list):
+                        continue
+                    ms.append(('boundmethod', r[1][2] + '.' + attr, base))
                 elif r is not None and r[0] == 'class':
-                    ms.append(('class', c + '.' + attr))
+                    ms.append(('class', r[1]))
             if ms:
-                return AV(base.srcs, base.fresh, 'unk', ms, None, ())
+                return AV((), False, None, ms, None, ())
         return AV(base.srcs, base.fresh, 'arr' if (attr in NP.ATTR_VIEW and base.kind == 'arr') else 'unk', (), None, ())
 
     def load_self_field(self, attr, scope, n):
@@ -1102,6 +1183,8 @@ class FuncTranslator(object):
             if r[0] == 'const':
                 return NB
         if self.method:
+            if attr in self.scalar_fields:
+                return NB                     # a number / string in every assignment of the constructor
             selfv = root.cur.get('self')
             return AV([selfv], False, 'unk') if selfv else NB
         return NB         # attribute not set on this path (or a number)
@@ -1172,6 +1255,17 @@ class FuncTranslator(object):
                 return AV((), spec in ('fresh', 'copy', 'view'), 'unk') if any(a.isbuf() for _, a in args) or spec in ('fresh', 'copy') else NB
             return self.method_call(n, base, n.func.attr, args, kws)
         if not f.funcs:
+            if f.isbuf() and f.cls:
+                ms = []
+                for c in f.cls:
+                    probe = FuncTranslator.__new__(FuncTranslator)
+                    probe.w = self.w
+                    probe.clsq = c
+                    r = FuncTranslator.find_member(probe, '__call__', c)
+                    if r is None or r[0] != 'method':
+                        fail(n, 'object of class %s is not callable' % c)
+                    ms.append(self.call_abel(r[1][2] + '.__call__', r[2], n, [(None, f)] + args, kws, drop_self=False, method_of=f))
+                return join(*ms)
             if f.isbuf():
                 # calling an object (spline, interp1d, user-supplied function value held in a container)
                 return AV((), True, 'arr')
@@ -1204,7 +1298,7 @@ class FuncTranslator(object):
         elif spec == 'fresh':
             res = AV((), True, 'arr')
         elif spec == 'copy':
-            res = AV(base.srcs, True, 'cont') if base.kind == 'cont' else AV((), True, base.kind or 'arr')
+            res = AV(base.srcs, True, 'cont', (), None, (), True) if base.kind == 'cont' else AV((), True, base.kind or 'arr')
         elif spec == 'view':
             res = AV(base.srcs, True if base.fresh else False, base.kind if name not in ('get', 'items', 'values') else 'unk')
             if name == 'get' and argav.isbuf():
@@ -1236,6 +1330,8 @@ class FuncTranslator(object):
             return self.inline(fn[2], n, scope, scope_root(scope), owner=fn[1][2], is_method=True, args=args, kws=kws, call_scope=scope)
         if kind == 'boundmethod':
             r = self.w.lookup(fn[1])
+            if r is None or r[0] != 'method':
+                fail(n, 'cannot find method %s' % fn[1])
             return self.call_abel(fn[1], r[3], n, [(None, fn[2])] + args, kws, drop_self=False, method_of=fn[2])
         if kind == 'abelmethod':
             r = self.w.lookup(fn[1])
@@ -1258,7 +1354,7 @@ class FuncTranslator(object):
             spec = 'view:0'
         if name == 'builtins.dict' and not args:
             j = join(*[a for _, a in kws]) if kws else NB
-            return AV(j.srcs, True, 'cont', j.funcs)
+            return AV(j.srcs, True, 'cont', j.funcs, None, (), True)
         if spec is None:
             fail(n, 'no summary for external callable %s' % name)
         outs = self.apply_out_kw(kws)
@@ -1275,13 +1371,13 @@ class FuncTranslator(object):
             a = pos[k] if k < len(pos) else allav
             res = AV(a.srcs, True, 'arr' if a.kind == 'arr' else 'unk')
         elif spec == 'hold':
-            res = AV(allav.srcs, True, 'cont', allav.funcs, pos[0].elems if (len(pos) == 1 and name in ('builtins.list', 'builtins.tuple')) else None)
+            res = AV(allav.srcs, True, 'cont', allav.funcs, pos[0].elems if (len(pos) == 1 and name in ('builtins.list', 'builtins.tuple')) else None, (), True)
             if name in ('builtins.zip', 'builtins.enumerate') and pos:
                 # elements are tuples of the elements of the arguments
                 el = [view_of(a) if a.elems is None else join(*a.elems) for a in pos]
                 if name == 'builtins.enumerate':
                     el = [NB] + el[:1]
-                res = AV(allav.srcs, True, 'cont', (), [AV(join(*el).srcs, join(*el).fresh, 'cont', (), el)])
+                res = AV(allav.srcs, True, 'cont', (), [AV(join(*el).srcs, join(*el).fresh, 'cont', (), el, (), True)], (), True)
         elif spec.startswith('write:'):
             k = int(spec[6:])
             if k < len(pos):
@@ -1354,7 +1450,7 @@ class FuncTranslator(object):
                 add(npos[k], av)
                 k += 1
             elif vararg:
-                add(vararg[0], AV(av.srcs, av.fresh, 'cont' if av.isbuf() else None, av.funcs, None, av.cls))
+                add(vararg[0], AV(av.srcs, av.fresh, 'cont' if av.isbuf() else None, av.funcs, None, av.cls, True))
             elif not lenient:
                 fail(n, 'too many positional arguments')
         explicit = set(bound)
@@ -1367,7 +1463,7 @@ class FuncTranslator(object):
                 add(names[name], av)
                 explicit.add(names[name])
             elif kwarg:
-                add(kwarg[0], AV(av.srcs, av.fresh, 'cont' if av.isbuf() else None, av.funcs, None, av.cls))
+                add(kwarg[0], AV(av.srcs, av.fresh, 'cont' if av.isbuf() else None, av.funcs, None, av.cls, True))
             elif not lenient:
                 fail(n, 'unexpected keyword argument %s' % name)
         return bound
@@ -1383,14 +1479,17 @@ class FuncTranslator(object):
         site = self.newsite()
         self.emit(('call', res, qual, argvars, site))
         self.calls.append(qual)
-        self.w.needed.add(qual)
-        cls = ()
-        self.meta[res] = AV((), False, 'unk', (), None, cls)
+        info = self.w.ensure(qual)
+        if info is False:
+            fail(n, 'callee %s is not translatable: %s' % (qual, self.w.failed.get(qual, '?')))
+        cls = tuple(info['ret_cls']) if info else ()
+        self.meta[res] = AV((), False, 'cont' if cls else 'unk', (), None, cls)
         # a method may store its arguments in the object: the region grows
         if method_of is not None:
+            links = info.get('links') if info else None
             for i in range(1, len(plist)):
                 av = bound.get(i)
-                if av is not None and av.isbuf():
+                if av is not None and av.isbuf() and (links is None or i in links):
                     self.store_into(method_of, av, write=False)
         return AV([res], False, 'unk', (), None, cls)
 
@@ -1405,7 +1504,7 @@ class FuncTranslator(object):
         m = FuncTranslator.find_member(sub, '__init__', cq)
         if m is None or m[0] != 'method':
             # no constructor inside abel: an empty object
-            return AV((), True, 'cont', (), None, [cq])
+            return AV((), True, 'cont', (), None, [cq], True)
         init = m[2]
         qual = cq + '.__init__'
         plist = param_list(init, True)
@@ -1418,7 +1517,8 @@ class FuncTranslator(object):
         site = self.newsite()
         self.emit(('call', res, qual, argvars, site))
         self.calls.append(qual)
-        self.w.needed.add(qual)
+        if self.w.ensure(qual) is False:
+            fail(n, 'constructor %s is not translatable: %s' % (qual, self.w.failed.get(qual, '?')))
         self.meta[res] = AV((), False, 'cont', (), None, [cq])
         return AV([res], False, 'cont', (), None, [cq])
 
@@ -1453,17 +1553,16 @@ class FuncTranslator(object):
                 if av is None and nm in dflt:
                     av = self.expr(dflt[nm], def_scope)
                 if av is None:
-                    av = AV((), True, 'cont') if role in ('vararg', 'kwarg') else NB
-                if role == 'kwarg' and av is not None:
-                    av = AV(av.srcs, True, 'cont', av.funcs)
+                    av = AV((), True, 'cont', (), None, (), True) if role in ('vararg', 'kwarg') else NB
+                if role in ('kwarg', 'vararg') and av is not None:
+                    av = AV(av.srcs, True, 'cont', av.funcs, None, (), True)
                 self.bind(nm, av, sc)
             sc.retvar = self.tmp('ret')
             sc.retmeta = None
             if isinstance(fdef, ast.Lambda):
                 av = self.expr(fdef.body, sc)
                 return av
-            for s in fdef.body:
-                self.stmt(s, sc)
+            self.stmts(fdef.body, sc)
             rm = sc.retmeta
             if rm is None or not rm.isbuf():
                 return rm if rm is not None else NB
@@ -1506,6 +1605,9 @@ class FuncTranslator(object):
             kind = 'cont' if role in ('vararg', 'kwarg') else 'unk'
             cls = [self.clsq] if (self.method and i == 0) else ()
             self.meta[pv] = AV((), False, kind, (), None, cls)
+            if role in ('vararg', 'kwarg'):
+                # *args / **kwargs are new containers holding (references to) what the caller passed
+                self.bind(nm, AV([pv], True, 'cont', (), None, (), True), scope)
             d = dflt.get(nm)
             if d is not None and isinstance(d, (ast.List, ast.Dict, ast.Set)) or \
                     (isinstance(d, ast.Call) and isinstance(d.func, ast.Name) and d.func.id in ('dict', 'list', 'set')):
@@ -1514,13 +1616,15 @@ class FuncTranslator(object):
                 self.meta[pv] = AV((), False, 'cont', (), None, ())
         if self.method and plist and 'classmethod' not in decos and 'staticmethod' not in decos:
             scope.cur['self'] = self.params[0]
-        for s in fn.body:
-            self.stmt(s, scope)
+            ci = self.w.ensure(self.clsq + '.__init__')
+            if ci:
+                self.scalar_fields = set(ci.get('scalar_fields', ()))
+        self.stmts(fn.body, scope)
         if self.ctor:
             # the constructed object: everything stored in its attributes
             for k, v in sorted(scope.cur.items()):
-                if k.startswith('self.'):
-                    self.emit(('ret', v))
+                if k.startswith('self.') and not k.startswith('self._'):
+                    self.emit(('ret', v))        # (private attributes are not part of the result)
             t = self.tmp('self')
             self.emit(('assign', t, ('fresh', self.newsite())))
             self.emit(('ret', t))
@@ -1757,12 +1861,18 @@ def build(repo=None):
         for name in list(m.funcs) + list(m.classes):
             if not name.startswith('_'):
                 public[mn + '.' + name] = True
-    progs, failed = {}, {}
-    done = set()
-    todo = sorted(public)
+    progs, failed, infos = {}, {}, {}
+    w.progs, w.failed = progs, failed
+    w.summ_cache = {}
+    inprogress = set()
 
-    def translate_one(q):
-        r = w.lookup(q)
+    def spec_arrays(q):
+        s = SP.SPECS.get(q)
+        if s is None:
+            return None
+        return set(s['arrays']) | set(s.get('containers', ()))
+
+    def translator_for(q):
         if q.endswith('.__init__'):
             cq = q[:-9]
             rc = w.lookup(cq)
@@ -1773,59 +1883,82 @@ def build(repo=None):
             probe.clsq = cq
             mem = FuncTranslator.find_member(probe, '__init__', cq)
             if mem is None:
-                raise Untranslatable('class %s has no constructor' % cq)
+                return None, cq
             (mm, cdef, oq), init = mem[1], mem[2]
-            ft = FuncTranslator(w, mm, init, q, cls=rc[2], ctor=True,
-                                array_params=spec_arrays(cq))
+            ft = FuncTranslator(w, mm, init, q, cls=rc[2], ctor=True, array_params=spec_arrays(cq))
             ft.clsq = cq
-            sc_owner = oq
-            ft._owner = sc_owner
-            return ft
+            return ft, cq
+        r = w.lookup(q)
         if r is None:
             raise Untranslatable('cannot find %s' % q)
         if r[0] == 'func':
             ft = FuncTranslator(w, r[1], r[2], q, array_params=spec_arrays(q))
             ft.clsq = None
-            return ft
+            return ft, None
         if r[0] == 'method':
             cq = q.rsplit('.', 1)[0]
             ft = FuncTranslator(w, r[1], r[3], q, cls=r[2], method=True)
             ft.clsq = cq
-            return ft
+            return ft, None
         raise Untranslatable('%s is a %s' % (q, r[0]))
 
-    def spec_arrays(q):
-        s = SP.SPECS.get(q)
-        if s is None:
+    def ensure(q):
+        """translate q (a function, a method, or 'Class.__init__') on demand.
+        Returns its info dict, None while it is being translated (recursion),
+        False when it cannot be translated."""
+        if q in infos:
+            return infos[q]
+        if q in failed:
+            return False
+        if q in inprogress:
             return None
-        return set(s['arrays']) | set(s.get('containers', ()))
+        inprogress.add(q)
+        try:
+            ft, cq = translator_for(q)
+            if ft is None:            # a class without constructor: an empty object
+                progs[q] = ([], ('seq', ('assign', '$self#0', ('fresh', 1)), ('ret', '$self#0')))
+                infos[q] = dict(ret_cls={cq})
+            else:
+                params, body = ft.translate()
+                progs[q] = (params, body)
+                infos[q] = dict(ret_cls={cq} if cq else set(ft.ret_cls))
+                if ft.ctor:
+                    infos[q]['scalar_fields'] = {f for f, fa in ft.field_assign.items() if fa['nb'] and not fa['buf']}
+                if ft.method and params:
+                    # which arguments may end up stored in the object (parameter 0)?
+                    summ = {k: summary_of(progs[k][0], *analyze(progs[k][0], progs[k][1], w.summ_cache)[1:]) for k in ()}
+                    for k in progs:
+                        if k not in w.summ_cache:
+                            w.summ_cache[k] = dict(BOTTOM)
+                    for _ in range(6):
+                        ch = False
+                        for k in list(progs):
+                            pts_k, T, W, R = analyze(progs[k][0], progs[k][1], w.summ_cache)
+                            sk = summary_of(progs[k][0], T, W, R)
+                            if sk != w.summ_cache[k]:
+                                w.summ_cache[k] = sk
+                                ch = True
+                        if not ch:
+                            break
+                    pts_q = analyze(params, body, w.summ_cache)[0]
+                    infos[q]['links'] = {j for (kk, *rest) in [tuple(x) for x in pts_q.get(params[0], ())] if kk == 'A' for j in rest if j != 0}
+            return infos[q]
+        except Untranslatable as e:
+            failed[q] = str(e)
+            return False
+        except RecursionError:
+            failed[q] = 'recursion limit'
+            return False
+        finally:
+            inprogress.discard(q)
+    w.ensure = ensure
 
-    while todo:
-        q = todo.pop(0)
-        if q in done:
-            continue
-        done.add(q)
-        key = q
+    for q in sorted(public):
         r = w.lookup(q)
         tq = q + '.__init__' if (r is not None and r[0] == 'class') else q
-        before = set(w.needed)
-        try:
-            ft = translate_one(tq)
-            params, body = ft.translate()
-            progs[tq] = (params, body)
-        except Untranslatable as e:
-            failed[key] = str(e)
-            w.needed = before | {x for x in w.needed if x in progs}
-            continue
-        except RecursionError:
-            failed[key] = 'recursion limit'
-            continue
-        for c in sorted(w.needed - done):
-            todo.append(c)
+        ensure(tq)
     # summaries: least fixpoint over the call graph
     summaries = {q: dict(BOTTOM) for q in progs}
-    for q in failed:
-        pass
     for _ in range(50):
         changed = False
         for q, (params, body) in progs.items():
@@ -1876,25 +2009,78 @@ def generate(repo=None, path=None):
     res = build(repo)
     progs, summaries = res['progs'], res['summaries']
     out = [HEADER % (repo or vlib.REPO)]
-    pub, helpers = [], []
+    pub, other, helpers = [], [], []
     for q in sorted(progs):
         params, body = progs[q]
         out.append('Definition %s : prog := {| params := [%s]; body :=\n%s |}.\n'
                    % (ident(q), '; '.join(coq_str(p) for p in params), coq_cmd(body, summaries)))
-        if public_key(q) in res['public'] and (q.endswith('.__init__') or q in res['public']):
-            pub.append(q)
+        k = public_key(q)
+        if k in res['public'] and (q.endswith('.__init__') or q in res['public']):
+            (pub if k in SP.SPECS else other).append(q)
         else:
             helpers.append(q)
-    out.append('Definition public_functions : list (string * prog) := [\n  %s].\n'
-               % ';\n  '.join('(%s, %s)' % (coq_str(q), ident(q)) for q in pub))
-    out.append('Definition helper_functions : list (string * prog) := [\n  %s].\n'
-               % ';\n  '.join('(%s, %s)' % (coq_str(q), ident(q)) for q in helpers))
-    out.append('Definition all_functions := (public_functions ++ helper_functions)%list.\n')
+
+    def lst(name, qs, comment):
+        return '(* %s *)\nDefinition %s : list (string * prog) := [\n  %s].\n' % (
+            comment, name, ';\n  '.join('(%s, %s)' % (coq_str(public_key(q)), ident(q)) for q in qs))
+    out.append(lst('public_functions', pub, 'public callables that take part in property C18 (they have an argument spec)'))
+    out.append(lst('other_public_functions', other, 'public callables without array/dict arguments (administration, timing, file names)'))
+    out.append('(* library-internal callees, under the names used by the Call commands *)\n'
+               'Definition callee_functions : list (string * prog) := [\n  %s].\n'
+               % ';\n  '.join('(%s, %s)' % (coq_str(q), ident(q)) for q in sorted(progs)))
     untr = sorted(res['failed'])
     out.append('(* not translated (reported by the check, never skipped silently):\n%s *)\n'
                % '\n'.join('   %s : %s' % (q, res['failed'][q].replace('*)', '* )')) for q in untr))
     text = '\n'.join(out)
     vlib.write_if_changed(path or os.path.join(vlib.COQ, 'gen', 'AliasProgs.v'), text)
+    res['public_translated'] = [public_key(q) for q in pub]
+    return res
+
+
+def known_static_exceptions():
+    """exceptions of safe_all_public, derived from the committed KNOWN_FINDINGS.json
+    (keys 'C18:args:<callable>:...' and 'C18:result-mutation:<callable>:...')"""
+    writers, returners = set(), set()
+    kfs = list(vlib.known_findings('C18'))
+    extra = os.environ.get('VERIF_C18_EXTRA_FINDINGS')       # self-test only: proposed, not yet merged entries
+    if extra:
+        import json
+        kfs += [f for f in json.load(open(extra)).get('findings', []) if f.get('property') == 'C18']
+    for kf in kfs:
+        parts = kf.get('key', '').split(':')
+        if len(parts) >= 3 and parts[0] == 'C18':
+            if parts[1] == 'args':
+                writers.add(parts[2])
+            elif parts[1] == 'result-mutation':
+                returners.add(parts[2])
+    return sorted(writers), sorted(returners)
+
+
+def generate_exceptions(path=None):
+    writers, returners = known_static_exceptions()
+    accessors = sorted(k for k, v in SP.SPECS.items() if v.get('cache_accessor'))
+    unproved = sorted(SP.ALIAS_UNPROVED_ARGS)
+
+    def lst(name, items, comment):
+        return '(* %s *)\nDefinition %s : list string := [%s].\n' % (comment, name, '; '.join(coq_str(x) for x in items))
+    text = ('(* AliasExceptions.v — GENERATED by tools/translate/alias_prog.py from\n'
+            '   /verif/KNOWN_FINDINGS.json (recorded C18 findings) and the committed list\n'
+            '   ALIAS_UNPROVED_ARGS of tools/translate/_alias_specs.py; do not edit. *)\n'
+            'From Coq Require Import List String.\nImport ListNotations.\nOpen Scope string_scope.\n\n'
+            + lst('known_arg_writers', writers, 'recorded findings: the callable writes into an argument (safe_args is refuted)')
+            + lst('known_cache_returners', returners, 'recorded findings: a returned array is held by a module-level cache (safe_ret is refuted)')
+            + lst('unproved_args', unproved, 'safe_args is not established (analysis too coarse: see _alias_specs.py); covered dynamically')
+            + lst('cache_accessors', accessors, 'documented cache accessors: returning the cached arrays is their purpose'))
+    vlib.write_if_changed(path or os.path.join(vlib.COQ, 'gen', 'AliasExceptions.v'), text)
+    return dict(writers=writers, returners=returners, unproved=unproved, accessors=accessors)
+
+
+_generate_progs = generate
+
+
+def generate(repo=None):           # entry point used by tools/gen_all.py
+    res = _generate_progs(repo)
+    res['exceptions'] = generate_exceptions()
     return res
 
 
